@@ -3,6 +3,7 @@ package main
 // Contract verification driver: builds obligations for a contract block.
 
 import (
+	"time"
 	"fmt"
 	"os"
 	"go/types"
@@ -207,6 +208,9 @@ func (x *Exec) evalClause(st *State, env *Env, cl *Clause) *Term {
 }
 
 // oblige records a proof obligation at the current state.
+// contractBudget bounds the symbolic execution (not the solving) of one contract.
+var contractBudget = 150 * time.Second
+
 func (x *Exec) oblige(st *State, name string, goal *Term, what string) {
 	if x.dry > 0 {
 		return
@@ -1097,6 +1101,11 @@ func (x *Exec) verifyContract(ct *Contract) (err error) {
 		}
 	}()
 	x.cur = ct
+	// symbolic execution of one contract has a time budget: changed code under annotations that
+	// no longer fit it (a loop that lost its invariant) can otherwise unroll without end
+	x.deadline = time.Now().Add(contractBudget)
+	x.steps = 0
+	defer func() { x.deadline = time.Time{} }()
 	freshCtr = map[string]int{}
 	for k, n := range x.freshBase {
 		freshCtr[k] = n
